@@ -1,6 +1,6 @@
 """
-Engine `gram`: fake datagram kernel for hio.core.udp.udping (module global
-`socket`) and a seeded uuid for hio.core.memo.memoing (module global `uuid`).
+Engine `gram`: fake datagram kernel for hio.core.udp.udping and
+hio.core.uxd.uxding (module global `socket` of each) and a seeded uuid for hio.core.memo.memoing (module global `uuid`).
 
 Datagram semantics: sendto() hands the kernel a whole datagram or raises
 EAGAIN / ENOBUFS / an "unreachable" errno; because the property under test
@@ -17,13 +17,23 @@ import hashlib
 from . import tree
 tree.load()
 from hio.core.udp import udping          # noqa: E402
+from hio.core.uxd import uxding          # noqa: E402
 from hio.core.memo import memoing        # noqa: E402
 
 tree.assert_tree_module(udping)
+tree.assert_tree_module(uxding)
 tree.assert_tree_module(memoing)
 
 UNREACHABLE = [errno.ECONNREFUSED, errno.ECONNRESET, errno.ENETRESET, errno.ENETUNREACH, errno.EHOSTUNREACH,
                errno.ENETDOWN, errno.EHOSTDOWN, errno.ETIMEDOUT]
+UNREACHABLE_UXD = [errno.ECONNREFUSED, errno.ENOENT]     # destination socket file has no listener / does not exist
+WOULD_BLOCK = [errno.EAGAIN, errno.ENOBUFS]
+WOULD_BLOCK_UXD = [errno.EAGAIN, errno.ENOBUFS, errno.ENOMEM]
+
+
+def key(addr):
+    """hashable form of a datagram address: (host, port) for UDP, the path for a unix-domain socket"""
+    return addr if isinstance(addr, str) else tuple(addr)
 
 
 class FakeDgram:
@@ -46,6 +56,10 @@ class FakeDgram:
         pass
 
     def bind(self, addr):
+        if isinstance(addr, str):     # AF_UNIX: a path (the file itself is not created; Filer tolerates that)
+            self.addr = addr
+            self.net.bound[addr] = self
+            return
         host, port = addr
         self.addr = (host or "0.0.0.0", port)
         self.net.bound[self.addr[1]] = self
@@ -55,8 +69,9 @@ class FakeDgram:
 
     def close(self):
         self.closed = True
-        if self.addr and self.net.bound.get(self.addr[1]) is self:
-            del self.net.bound[self.addr[1]]
+        k = self.addr if isinstance(self.addr, str) else (self.addr[1] if self.addr else None)
+        if k is not None and self.net.bound.get(k) is self:
+            del self.net.bound[k]
 
     def sendto(self, data, dst):
         if self.closed:
@@ -91,9 +106,9 @@ class DgramNet:
             r = self.send_policy(sock, data, dst)
         else:
             r = len(data)
-        self.sent.append((sock.addr[1], tuple(dst), "ok", data[:r]))
+        self.sent.append((sock.addr if isinstance(sock.addr, str) else sock.addr[1], key(dst), "ok", data[:r]))
         if r:
-            self.wire.append((sock.addr, tuple(dst), data[:r]))
+            self.wire.append((sock.addr, key(dst), data[:r]))
         return r
 
     def deliver(self, dst_port, data, src):
@@ -135,13 +150,13 @@ class installed:
         self.uuid = FakeUUIDModule(uuid_seed)
 
     def __enter__(self):
-        self.saved = (udping.socket, memoing.uuid)
-        udping.socket = SockModule(self.net)
+        self.saved = (udping.socket, uxding.socket, memoing.uuid)
+        udping.socket = uxding.socket = SockModule(self.net)
         memoing.uuid = self.uuid
         return self.net
 
     def __exit__(self, *a):
-        udping.socket, memoing.uuid = self.saved
+        udping.socket, uxding.socket, memoing.uuid = self.saved
         return False
 
 
